@@ -406,4 +406,6 @@ func jsonGen(g *Gen) {
 		g.Emit("qjs %s", e)
 		g.Count("quote " + cls)
 	}
+	// --- histories of encode/decode steps (ch_json_hist_gen.go)
+	jsonHistGen(g)
 }
